@@ -278,12 +278,25 @@ func verif_contract_Session_findOrCreateHostWithLock(h *Session, addr Addr) (*Ho
 	return host, found
 }
 
+//verif:props C10
 func verif_contract_Session_onlineTransition(h *Session, host *Host) {
 	vRequires(spec_session_wf(h) && host != nil && host.MACEntry != nil)
+	if !spec_hostlist_nonnil(host.MACEntry) {
+		vTrusted("the MAC entry's host list holds a nil host (excluded by C05's table invariant, which is not established)")
+	}
+	vCanary()
 	// flags and addresses of the host, its MAC entry and the entry's other hosts: no table, no Session field
 	vModifiesMems("packet.Host/", "packet.MACEntry/")
 	h.onlineTransition(host)
 	vEnsures(spec_session_wf(h))
+}
+
+func verif_inv_Session_onlineTransition_1(h *Session, host *Host, rangeindex int) bool {
+	return spec_session_wf(h) && host != nil && host.MACEntry != nil &&
+		-1 <= rangeindex && rangeindex < len(host.MACEntry.HostList)
+}
+func verif_dec_Session_onlineTransition_1(host *Host, rangeindex int) int {
+	return len(host.MACEntry.HostList) - rangeindex
 }
 
 func spec_off_ok(off int, n int) bool { return off == 0 || (14 <= off && off <= n) }
